@@ -97,7 +97,7 @@ def run_capped(cmd, cwd, logfile, timeout, mem_gb=None, env=None):
 # ---------------------------------------------------------------------------------------------
 # parsing Kani's regular output
 # ---------------------------------------------------------------------------------------------
-CHECK_RE = re.compile(r'^Check \d+: (\S+)\n\t - Status: (\w+)\n\t - Description: "(.*)"\n\t - Location: (.*)$', re.M)
+CHECK_RE = re.compile(r'^Check \d+: (.+)\n\t - Status: (\w+)\n\t - Description: "(.*)"\n\t - Location: (.*)$', re.M)
 
 
 def parse_kani(text):
